@@ -245,7 +245,7 @@ func c12Plan(quick bool) *FuncPlan {
 		if q {
 			return 60
 		}
-		return 20000
+		return 5000
 	}}
 }
 
@@ -260,6 +260,10 @@ func init() {
 		}
 		if len(c.Args) == 2 && c.Args[0] == "--replay" {
 			return p.ReplayFile(c, c.Args[1])
+		}
+		votesOnly := len(c.Args) == 1 && c.Args[0] == "--votes-only" // development aid: skip the full-node part
+		if votesOnly {
+			p.Scens = nil
 		}
 		res := p.Master(c)
 		if res.EngineErr != "" {
